@@ -696,9 +696,16 @@ fn inlist_probe(n: &Expr) -> Option<Expr> {
         _ => None,
     }
 }
-/// stable key of the known defect class the ORIGINAL expression can trigger and the failing row is consistent with
-/// ("" = none).  v0 / v1 = value of the original / simplified expression on the failing row (None = error).
-fn defect_key(e: &Expr, df: &DFSchema, guar: &[(usize, Guar)], row: &[V], v0: &V, v1: Option<&V>, err1: &str) -> String {
+/// the syntactic triggers of the known defect classes present in the ORIGINAL expression / the guarantees
+struct Triggers {
+    inlist_pair: bool,
+    empty_inlist: bool,
+    neg_bit: bool,
+    has_neg: bool,
+    trycast_narrow: bool,
+    maybenull_point: Vec<usize>,
+}
+fn triggers(e: &Expr, df: &DFSchema, guar: &[(usize, Guar)]) -> Triggers {
     let mut probes: Vec<Expr> = vec![];
     let mut inlist_pair = false;
     let mut empty_inlist = false;
@@ -726,8 +733,40 @@ fn defect_key(e: &Expr, df: &DFSchema, guar: &[(usize, Guar)], row: &[V], v0: &V
             _ => {}
         }
     });
-    // unary minus anywhere together with a bitwise operator anywhere (other rules may bring them together)
-    let neg_bit = has_neg && has_bit;
+    Triggers {
+        inlist_pair,
+        empty_inlist,
+        // unary minus anywhere together with a bitwise operator anywhere (other rules may bring them together)
+        neg_bit: has_neg && has_bit,
+        has_neg,
+        trycast_narrow,
+        maybenull_point: guar.iter().filter(|(_, g)| matches!(g, Guar::MaybeNull(lo, hi) if lo == hi)).map(|(ci, _)| *ci).collect(),
+    }
+}
+fn trigger_names(t: &Triggers) -> Vec<&'static str> {
+    let mut v = vec![];
+    if t.inlist_pair {
+        v.push("inlist-merge-ignores-null");
+    }
+    if t.trycast_narrow {
+        v.push("unwrap-narrowing-try_cast");
+    }
+    if t.empty_inlist {
+        v.push("empty-inlist-null-probe");
+    }
+    if t.neg_bit {
+        v.push("negative-as-bitwise-not");
+    }
+    if !t.maybenull_point.is_empty() {
+        v.push("guarantee-maybenull-point-as-constant");
+    }
+    v
+}
+/// stable key of the known defect class the ORIGINAL expression can trigger and the failing row is consistent with
+/// ("" = none).  v0 / v1 = value of the original / simplified expression on the failing row (None = error).
+fn defect_key(e: &Expr, df: &DFSchema, guar: &[(usize, Guar)], row: &[V], v0: &V, v1: Option<&V>, err1: &str) -> String {
+    let t = triggers(e, df, guar);
+    let (inlist_pair, empty_inlist, neg_bit, has_neg, trycast_narrow) = (t.inlist_pair, t.empty_inlist, t.neg_bit, t.has_neg, t.trycast_narrow);
     let orig_null = *v0 == V::Null;
     let simp_null = v1 == Some(&V::Null);
     let mut ks = vec![];
@@ -746,7 +785,7 @@ fn defect_key(e: &Expr, df: &DFSchema, guar: &[(usize, Guar)], row: &[V], v0: &V
     }
     // a MaybeNull guarantee with a point interval is treated as the constant
     // (the failing row has NULL in such a column)
-    if guar.iter().any(|(ci, g)| matches!(g, Guar::MaybeNull(lo, hi) if lo == hi) && row[*ci] == V::Null) {
+    if t.maybenull_point.iter().any(|ci| row[*ci] == V::Null) {
         ks.push("guarantee-maybenull-point-as-constant");
     }
     // -(MIN): the array kernel wraps, a folded / guaranteed literal operand makes the scalar kernel fail
@@ -1097,7 +1136,8 @@ fn run_case(cx: &Ctx, c: &Case1, rng: &mut Rng) -> String {
             if let (Some(j0), Some(j1)) = (to_ref(e, cx.df.as_ref()), to_ref(es, cx.df.as_ref())) {
                 let dj: Vec<String> = doms.iter().map(|d| format!("[{}]", d.iter().map(|v| v.json()).collect::<Vec<_>>().join(","))).collect();
                 let obs: Vec<String> = r0[..nprod].iter().map(|x| match x { Ok(V::Other(_)) | Err(_) => "\"err\"".to_string(), Ok(v) => v.json() }).collect();
-                o.push_str(&format!(",\"ref\":{{\"e\":{},\"e2\":{},\"doms\":[{}],\"obs\":[{}]}}", j0, j1, dj.join(","), obs.join(",")));
+                let cl: Vec<String> = trigger_names(&triggers(e, cx.df.as_ref(), &c.guar)).iter().map(|x| json_str(x)).collect();
+                o.push_str(&format!(",\"classes\":[{}],\"ref\":{{\"e\":{},\"e2\":{},\"doms\":[{}],\"obs\":[{}]}}", cl.join(","), j0, j1, dj.join(","), obs.join(",")));
             }
         }
     }
